@@ -82,7 +82,7 @@ theorem iterRight (env : Env) : IterRight env := by
       pop := ⟨_, hop'⟩,
       core := fun pr' h => by
         rw [hop'] at h; cases h
-        exact r_opcore R E I.mid I.frag I.slots X.core X.hres X.he hfresh X.named R.inst (R.below_input hT),
+        exact r_opcore R E I.mid I.frag I.slots X.core X.hres X.he hfresh X.named R.inst (Or.inr R.input_new),
       dom := ?_, pnOld := ?_, newrec := ?_, pot := ?_, newKids := ?_, resKids := ?_,
       resNec := R.lfx.lf.nec _ I.resNec,
       forcedU := ?_, resAlt := ?_, fsame := ?_ }
@@ -165,18 +165,7 @@ theorem iterRight (env : Env) : IterRight env := by
     intro key' p d hk hm
     have h0 := I.forcedU key' p d hk hm
     have hplt : p < σ.nodes.size := (X.ops op _ hop).2.2 key' p d (I.pnOld _ hop key' p d hm)
-    rw [R.kind_old hplt]
-    cases hkd : (σ.nodeD p).kind with
-    | expert e =>
-      rw [hkd] at h0
-      simp only [ExpertH.forced] at h0 ⊢
-      cases hx : σ.experts[e]? with
-      | none => rw [xRec_none hx] at h0; cases h0
-      | some er =>
-        rw [xRec_some hx] at h0
-        obtain ⟨er2, he2, -, -, -, -, -, -, hf, -⟩ := R.lfx.lf.xrec e er hx
-        rw [xRec_some he2]; exact hf h0
-    | _ => rw [hkd] at h0; cases h0
+    exact R.lfx.lf.stamp hplt h0
   · -- resAlt
     right
     rw [hkres]
